@@ -36,7 +36,7 @@ func dlCheckAcquireMetrics(c dlCase, b *dlBuilt, i int, e dlEv, ok bool, busyBef
 	default:
 		if ok {
 			bin := e.Key
-			if bin != "a" && bin != "b" {
+			if bin != "a" && bin != "b" && bin != "c" {
 				bin = "<unknown>"
 			}
 			want := float64(perKey[e.Key] + 1)
